@@ -193,6 +193,22 @@ Theorem C09_generated_verifyClaimGERs_nil_iff : forall (H : bytes -> N) (cs : li
   GenAgreeVerifyClaims.gen_verify H cs = GoNum.EOK <-> forall c, In c cs -> node H (k_mer c) (k_rer c) = k_ger c.
 Proof. exact GenAgreeVerifyClaims.verifyClaimGERs_nil_iff. Qed.
 
+(* ---- the aggchain-prover flow's guard GENERATED from l1info_tree_data_query.go on every run ---- *)
+From Verif Require Gen.GenClaimsGuard Proofs.GenAgreeClaimsGuard.
+(* CheckIfClaimsArePartOfFinalizedL1InfoTree accepts (returns nil) iff every claim's global exit root is known to the syncer with a
+   leaf index at or below the root's - for every lookup function, root index, claim list and value of the panic parameter. This is
+   what puts the certificates of that flow inside the property's quantifier, and it is the clause the check evaluates on the real
+   guard's answers (o_guard in Model/C09Cases.v spec) *)
+Theorem C09_generated_guard_accepts_iff_all_covered : forall (lk : N -> option N) (panicv : GoNum.gerr) (ridx : N) (gers : list N),
+  GenAgreeClaimsGuard.gen_guard lk panicv ridx gers = GoNum.EOK <->
+  forallb (fun g => match lk g with Some i => i <=? ridx | None => false end) gers = true.
+Proof. exact GenAgreeClaimsGuard.guard_accepts_iff_all_covered. Qed.
+
+(* ... and which error it returns otherwise: the first claim that is unknown (not found) or beyond the root (an error) decides *)
+Theorem C09_generated_guard_is_first_bad : forall (lk : N -> option N) (panicv : GoNum.gerr) (ridx : N) (gers : list N),
+  GenAgreeClaimsGuard.gen_guard lk panicv ridx gers = GenAgreeClaimsGuard.first_bad lk ridx gers.
+Proof. exact GenAgreeClaimsGuard.guard_agree. Qed.
+
 Print Assumptions imported_exit_verifies.
 Print Assumptions chosen_root_at_or_below_finalized.
 Print Assumptions l1leaf_hash_is_contract_leaf.
@@ -207,3 +223,5 @@ Print Assumptions known_ger_never_checked.
 Print Assumptions beyond_root_proof_is_zero_leaf_proof.
 Print Assumptions C09_generated_verifyClaimGERs_is_model.
 Print Assumptions C09_generated_verifyClaimGERs_nil_iff.
+Print Assumptions C09_generated_guard_accepts_iff_all_covered.
+Print Assumptions C09_generated_guard_is_first_bad.
